@@ -2996,7 +2996,8 @@ class Entity(MutableMapping[str, str]):
                 self.map.by_class['worldspawn'].add(self)
         elif key_fold == 'targetname':
             _remove_copyset(self.map.by_target, (orig_val or '').casefold() or None, self)
-            if self in self.map.entities:
+            # Worldspawn is always present in by_target, like VMF() and VMF.parse() set it up.
+            if self in self.map.entities or self is self.map.spawn:
                 self.map.by_target[str_val.casefold() or None].add(self)
         elif key_fold == 'nodeid':
             try:
